@@ -14,6 +14,11 @@
 //!   execd   a = `<api>,<entries…>`        b = wanted exec.d programs: a cached layer whose exec.d is prepared by hand (plain files, symlinks,
 //!           hard links), restored, and written again through the struct API (KeepLayer + `write_exec_d_programs`) or the trait API (`Update`);
 //!           see `execd_history`. 6 processes (18 on replay). Observation: `differ:…` or `equal|<result>|<exec.d listing>` (`execd_listing`).
+//!   sbom    a = route                    b = SBOM registrations in order (`;`), formats repeated. Routes `bp` (items `b.<fmt>.<hex>` / `h.<fmt>.<hex>` of the
+//!           data-driven buildpack, other lower-case items allowed) and `tbp` (items of `TBP_BUILD`): the real build phase (`libcnb_runtime_build`) whose
+//!           `BuildResult` carries 0-8 build and 0-8 launch SBOMs; routes `ls` (struct API `LayerRef::write_sboms`) and `lt` (trait API `update` ->
+//!           `Sboms::Replace`): items `<fmt>=<hex>`, written to a cached layer that already has an SBOM of every format (`sbom_history`).
+//!           6 processes (18 on replay). Observation: `differ:…` or `equal|<result>|<SBOM files: name hex=bytes hex, sorted>` (`sbom_observation`).
 //! History ops added for restored layers: `K` symlink, `H` hard link (both placed by hand like `W`), `Q` listing of exec.d (bytes behind every
 //! name, link count). The raw snapshot carries link-ness as well (`raw_snapshot`).
 #![allow(deprecated)]
@@ -531,6 +536,54 @@ fn execd_observation(lines: &[String]) -> String {
     format!("equal|{}|{listing}", if res.starts_with("ok") { "ok" } else { res })
 }
 
+// ------------------------------------------------------------------------------------------------ kind `sbom`
+const SBOM_OLD: [&str; 3] = ["old-cdx", "old-spdx", "old-syft"];
+const TBP_ITEMS: [&str; 6] = ["launch", "elaunch", "xlaunch", "store", "estore", "xstore"];
+
+fn sbom_items_ok(route: &str, b: &str) -> bool {
+    let hexok = |h: &str| unhex(h).is_some();
+    split_list(b, ";").iter().all(|it| {
+        let p: Vec<&str> = it.split('.').collect();
+        match route {
+            "bp" => match p[0] {
+                "b" | "h" => p.len() == 3 && matches!(p[1], "0" | "1" | "2") && hexok(p[2]),
+                "i" | "p" | "l" | "s" | "m" => true,
+                _ => false,
+            },
+            "tbp" => TBP_ITEMS.contains(it) || (p.len() == 2 && matches!(p[0], "b" | "be" | "bx" | "l" | "le" | "lx") && matches!(p[1], "cdx" | "spdx" | "syft")),
+            _ => { let q: Vec<&str> = it.split('=').collect(); q.len() == 2 && matches!(q[0], "0" | "1" | "2") && hexok(q[1]) }
+        }
+    })
+}
+
+/// The layer history behind routes `ls` / `lt`: a cached layer `a` gets an SBOM of every format, then the scenario's list
+/// (formats repeated) is written — struct API: `write_sboms` twice; trait API: `create` returns the old ones, the layer is
+/// restored, `update` returns the list (`Sboms::Replace`).
+fn sbom_history(route: &str, b: &str) -> (String, String) {
+    let l = hex(b"a");
+    let old = (0..3).map(|i| format!("{i}={}", hex(SBOM_OLD[i].as_bytes()))).collect::<Vec<_>>().join("+");
+    let list = { let v = split_list(b, ";"); if v.is_empty() { "-".to_string() } else { v.join("+") } };
+    let ops = if route == "ls" { vec![format!("C.{l}.11.G.d1.k2"), format!("S.{l}.{old}"), format!("S.{l}.{list}")] }
+        else { vec![format!("T.{l}.111.k.v=1.-.-.{old}"), "R".into(), format!("T.{l}.111.u.v=2.-.-.{list}")] };
+    (l, ops.join(";"))
+}
+
+/// all runs agreed: `equal|<ok / err:kind>|<SBOM files at the top of the layers directory: <name hex>=<bytes hex>, in name order>` from the first run
+fn sbom_observation(route: &str, lines: &[String]) -> String {
+    let (res, prefix): (String, String) = if route == "bp" || route == "tbp" {
+        match lines.first().map(String::as_str) { Some("EXIT 0") => ("ok".into(), "LAYERS".into()), Some(l) => (format!("err:exit{}", l.trim_start_matches("EXIT ")), "LAYERS".into()), None => return "infra:no-result-lines".into() }
+    } else {
+        let Some(last) = lines.iter().filter(|l| l.split(' ').nth(1) == Some("R")).last() else { return "infra:no-result-lines".into() };
+        let r = last.split(' ').nth(2).unwrap_or("?");
+        (if r.starts_with("ok") { "ok".into() } else { r.to_string() }, last.split(' ').next().unwrap_or("?").to_string())
+    };
+    let files: Vec<String> = lines.iter().filter_map(|l| {
+        let p: Vec<&str> = l.split(' ').collect();
+        if p.len() >= 4 && p[0] == prefix && p[1] == "F" && !p[2].contains('/') && p[2].contains(".sbom.") && p[2].ends_with(".json") { Some(format!("{}={}", hex(p[2].as_bytes()), p.get(4).copied().unwrap_or(""))) } else { None }
+    }).collect();
+    format!("equal|{res}|{}", if files.is_empty() { "-".to_string() } else { files.join(",") })
+}
+
 const OLD: &[u8] = b"OLD-CONTENT\n";
 const PRE_STORE: &str = "[metadata]\nzeta = 1\nalpha = \"x\"\n\n[metadata.nested]\nk2 = true\nk1 = 2\n";
 
@@ -607,6 +660,15 @@ fn one_run(kind: &str, a: &str, b: &str) -> Result<Vec<String>, String> {
             if p.len() != 3 || (a != "detect" && a != "build") { return Err("bad-fields".into()); }
             run_bp(&tbp_path(), a, &[("TBP_DETECT", p[0].to_string()), ("TBP_BUILD", p[1].to_string())], Some(p[2]), false)
         }
+        "sbom" => {
+            if !sbom_items_ok(a, b) { return Err("bad-fields".into()); }
+            match a {
+                "bp" => { let names = hex(b"a"); run_bp(&self_exe(), "build", &[("C20_SPEC", b.to_string()), ("C20_NAMES", names)], None, b.split(';').any(|i| i == "i.store")) }
+                "tbp" => run_bp(&tbp_path(), "build", &[("TBP_DETECT", "pass".to_string()), ("TBP_BUILD", format!("ok:{}", split_list(b, ";").join(",")))], Some("a/a/a/aaa/aaa"), false),
+                "ls" | "lt" => { let (names, ops) = sbom_history(a, b); run_layers(&names, &ops) }
+                _ => Err("bad-fields".into()),
+            }
+        }
         _ => Err("bad-fields".into()),
     }
 }
@@ -626,12 +688,14 @@ fn run_case(f: &[String]) -> String {
     let one = |_i: usize| one_run(kind, a, b);
     let reference = match one(0) { Ok(r) => r, Err(e) if e == "bad-fields" || e == "bad-pre" => return "bad-fields".into(), Err(e) => return format!("infra:{e}") };
     // kind execd: two aliased names show a leak in one pair with probability 1/2 only, and a process is cheap: 6 / 18 runs
-    let n_runs = if kind == "execd" { 2 * runs() - 2 } else { runs() };
+    // kind sbom: two SBOMs of one format handed on in a per-process order agree in one pair with probability 1/2 as well
+    let n_runs = if kind == "execd" || kind == "sbom" { 2 * runs() - 2 } else { runs() };
     for i in 1..n_runs {
         if slow && i == n_runs - 1 { std::thread::sleep(std::time::Duration::from_millis(1100)); }
         match one(i) { Ok(r) => { if let Some(d) = compare(&reference, &r, i) { return d; } } Err(e) => return format!("infra:{e}") }
     }
     if kind == "execd" { return execd_observation(&reference); }
+    if kind == "sbom" { return sbom_observation(a, &reference); }
     "equal".into()
 }
 
@@ -826,6 +890,100 @@ fn generate(tier: &str, seed: u64, emit: &mut dyn FnMut(Case)) {
         ops.push(format!("Q.{a}"));
         emit(layer_case(ops, "execdlink"));
     } }
+
+    // 2f. kind `sbom`: a build result that registers 0-8 build and 0-8 launch SBOMs with repeated formats (same format again with other
+    //     bytes: the last one must stay; exact duplicates; every format 2-3 times in shuffled order), through the data-driven buildpack
+    //     and the C05 test buildpack; a layer's SBOMs from a list with repeats through write_sboms (ls) and the trait API's update (lt).
+    let doc = |t: &str, j: usize| hex(format!("{{\"doc\":\"{t}{j}\"}}").as_bytes());
+    let has_repeat = |fm: &[usize]| (0..3).any(|f| fm.iter().filter(|x| **x == f).count() >= 2);
+    let sbom_case = |route: &str, items: Vec<String>, sub: &str, fb: &[usize], fl: &[usize]| Case {
+        fields: vec!["sbom".into(), route.to_string(), join(";", &items)],
+        tags: vec![("kind".into(), format!("sbom-{route}-{sub}")), ("hashkeys".into(), "0".into()), ("nsbom".into(), fb.len().max(fl.len()).to_string()), ("repeat".into(), u8::from(has_repeat(fb) || has_repeat(fl)).to_string())],
+        nontrivial: has_repeat(fb) || has_repeat(fl) || fb.len().max(fl.len()) >= 4 };
+    const FN: [&str; 3] = ["cdx", "spdx", "syft"];
+    const TH: [&str; 9] = ["", "", "", "e", "x", "", "e", "x", "e"];
+    for n in 0..=8usize {
+        let cyc: Vec<usize> = (0..n).map(|j| j % 3).collect();
+        let rev: Vec<usize> = (0..n).map(|j| 2 - j % 3).collect();
+        emit(sbom_case("bp", cyc.iter().enumerate().map(|(j, f)| format!("b.{f}.{}", doc("b", j))).collect(), "cycle-build", &cyc, &[]));
+        emit(sbom_case("bp", rev.iter().enumerate().map(|(j, f)| format!("h.{f}.{}", doc("l", j))).collect(), "cycle-launch", &[], &rev));
+        emit(sbom_case("bp", (0..n).flat_map(|j| [format!("b.{}.{}", cyc[j], doc("b", j)), format!("h.{}.{}", rev[j], doc("l", j))]).collect(), "both", &cyc, &rev));
+        if n >= 2 {
+            // n documents of one format (the last one stays) beside n exact duplicates of one document
+            let same = vec![0usize; n]; let dup = vec![1usize; n];
+            emit(sbom_case("bp", (0..n).map(|j| format!("b.0.{}", doc("b", j))).chain((0..n).map(|_| format!("h.1.{}", doc("l", 0)))).collect(), "same-and-dups", &same, &dup));
+        }
+        emit(sbom_case("tbp", std::iter::once("launch".to_string()).chain((0..n).map(|j| format!("b{}.{}", TH[j], FN[cyc[j]]))).collect(), "cycle-build", &cyc, &[]));
+        emit(sbom_case("tbp", (0..n).flat_map(|j| [format!("l{}.{}", TH[8 - j], FN[rev[j]]), format!("b{}.{}", TH[j], FN[cyc[j]])]).chain(std::iter::once("store".to_string())).collect(), "both", &cyc, &rev));
+        for route in ["ls", "lt"] {
+            emit(sbom_case(route, cyc.iter().enumerate().map(|(j, f)| format!("{f}={}", doc("a", j))).collect(), "cycle", &cyc, &[]));
+            if n >= 4 && n % 2 == 0 {
+                // first-pass documents, one of them handed in again unchanged, a refined one of the first format at the end
+                let fm: Vec<usize> = (0..n).map(|j| if j == n - 1 { 0 } else if j == 3 { 0 } else { j % 3 }).collect();
+                emit(sbom_case(route, fm.iter().enumerate().map(|(j, f)| format!("{f}={}", doc("a", if j == 3 { 0 } else { j }))).collect(), "dup-refined", &fm, &[]));
+            }
+        }
+    }
+    let sizes_items = |r: &mut Rng, sz: usize| -> Vec<String> {
+        let mut it: Vec<String> = vec![];
+        for i in 0..sz { it.push(format!("p.{}.{}.{}.{}.-", hex(format!("proc{i:02}").as_bytes()), u8::from(i == 0), hex(format!("cmd{i}").as_bytes()), if i % 3 == 0 { hex(b"--x=y z") } else { "-".into() })); }
+        for i in 0..sz { it.push(format!("l.{}.{}", hex(format!("lab.{i:02}").as_bytes()), hex(format!("v{}", r.below(9)).as_bytes()))); }
+        for i in 0..sz { it.push(format!("s.{}", hex(format!("dir{i:02}/**").as_bytes()))); }
+        it.push(format!("m.{}", (0..sz).map(|i| if i % 5 == 4 { format!("n+k{i:02}={}", r.below(50)) } else { format!("k{i:02}={}", r.below(50)) }).collect::<Vec<_>>().join("_")));
+        r.shuffle(&mut it);
+        it
+    };
+    const SIZES: [usize; 8] = [3, 4, 8, 9, 16, 17, 32, 33];
+    let n_sb = if thorough { 600 } else if search { 120 } else { 40 };
+    for idx in 0..n_sb {
+        let mut r = Rng::for_case(seed ^ 0x5B0A, idx);
+        let tbp = idx % 4 == 3;
+        let pick_formats = |r: &mut Rng| -> Vec<usize> {
+            if r.chance(1, 3) {
+                // every format 2-3 times (8 at most), shuffled
+                let mut v: Vec<usize> = (0..3).flat_map(|f| vec![f; 2 + r.below(2) as usize]).collect(); r.shuffle(&mut v); v.truncate(8); v
+            } else { (0..r.below(9)).map(|_| r.below(3) as usize).collect() }
+        };
+        let (fb, fl) = (pick_formats(&mut r), if r.chance(1, 4) { vec![] } else { pick_formats(&mut r) });
+        let mut items: Vec<String> = vec![];
+        if tbp {
+            // the payload of the test buildpack follows the position; `e` twice for one format = exact duplicates
+            for f in &fb { items.push(format!("b{}.{}", r.pick(&["", "", "e", "x"]), FN[*f])); }
+            for f in &fl { items.push(format!("l{}.{}", r.pick(&["", "", "e", "x"]), FN[*f])); }
+            if r.chance(1, 2) { items.push(r.pick(&["launch", "xlaunch", "elaunch"]).to_string()); }
+            if r.chance(1, 2) { items.push(r.pick(&["store", "xstore", "estore"]).to_string()); }
+        } else {
+            // 3 documents per format and target: exact duplicates and same-format-other-bytes both arise
+            for f in &fb { items.push(format!("b.{f}.{}", doc(FN[*f], r.below(3) as usize))); }
+            for f in &fl { items.push(format!("h.{f}.{}", doc(FN[*f], 3 + r.below(3) as usize))); }
+            if r.chance(1, 3) { let sz = *r.pick(&SIZES); items.append(&mut sizes_items(&mut r, sz)); }
+            if r.chance(1, 4) { items.push("i.store".into()); }
+        }
+        r.shuffle(&mut items);
+        emit(sbom_case(if tbp { "tbp" } else { "bp" }, items, "rnd", &fb, &fl));
+    }
+    let n_ls = if thorough { 200 } else if search { 40 } else { 16 };
+    for idx in 0..n_ls {
+        let mut r = Rng::for_case(seed ^ 0x5B1A, idx);
+        let fm: Vec<usize> = if r.chance(1, 3) { let mut v: Vec<usize> = (0..3).flat_map(|f| vec![f; 2 + r.below(2) as usize]).collect(); r.shuffle(&mut v); v.truncate(8); v } else { (0..r.below(9)).map(|_| r.below(3) as usize).collect() };
+        let items: Vec<String> = fm.iter().map(|f| format!("{f}={}", doc(FN[*f], r.below(3) as usize))).collect();
+        emit(sbom_case(if idx % 2 == 0 { "ls" } else { "lt" }, items, "rnd", &fm, &[]));
+    }
+    // 2g. container sizes around 3/4, 8/9, 16/17, 32/33 (an implementation that switches containers by size): launch.toml with that many
+    //     processes, labels and slices and a store with that many keys through the build phase; layer metadata, process types and exec.d
+    //     programs of that many entries through the layer API, restored and written again
+    for sz in SIZES {
+        let mut it = sizes_items(&mut r, sz);
+        it.push("i.store".into());
+        for f in 0..3 { it.push(format!("b.{f}.{}", doc("b", f))); it.push(format!("h.{f}.{}", doc("l", f))); }
+        emit(mk("bp", "build".into(), join(";", &it), "sizes", 0, true));
+        let keys = |r: &mut Rng| (0..sz).map(|i| format!("k{i:02}={}", r.below(50))).collect::<Vec<_>>().join("_");
+        let envs = |r: &mut Rng| (0..sz).map(|i| format!("P:{}/{}/{}/{}", hex(format!("proc{i:02}").as_bytes()), r.pick(&["a", "d", "o", "p"]), hex(r.pick(&VARS).as_bytes()), hex(r.pick(&VALS).as_bytes()))).collect::<Vec<_>>().join(",");
+        let prs = |r: &mut Rng| (0..sz).map(|i| format!("{}={}", hex(format!("prog{i:02}").as_bytes()), hex(format!("#!{}", r.below(90)).as_bytes()))).collect::<Vec<_>>().join("+");
+        let ops = vec![format!("C.{a}.11.G.d1.k2"), format!("M.{a}.{}", keys(&mut r)), format!("E.{a}.{}", envs(&mut r)), format!("X.{a}.{}", prs(&mut r)), format!("S.{a}.0=63+1=6e+2=73"), "R".into(),
+            format!("C.{a}.11.G.d1.k2"), format!("E.{a}.{}", envs(&mut r)), format!("X.{a}.{}", prs(&mut r)), "R".into(), format!("T.{a}.111.u.{}.{}.{}.0=63+0=64", keys(&mut r), envs(&mut r), prs(&mut r))];
+        emit(layer_case(ops, "sizes"));
+    }
 
     let n_layers = if thorough { 6600 } else if search { 400 } else { 300 };
     let maxlen = if thorough { 30 } else { 14 };
